@@ -230,9 +230,25 @@ CHECKS = {
             "requires_grad of frozen maskers is exempt (pinned by a baseline test); their "
             "frozenness is decided behaviourally.",
             "DESIGN.md 4/C11"),
+    'C14': ("differential testing of integer vs fake-quantized layers over Hypothesis-generated "
+            "networks / precisions, on the integer network's own activations, with an explicit "
+            "error bound, an exact recomputation of the documented integer formula and range checks",
+            "Generated-input search over sequential / depthwise-separable 2-D networks (bias on/off, "
+            "folded BN, stride / padding / dilation on either axis, uniform and mixed {2,4,8}-bit "
+            "precisions, MATCH scale_bit/shift_pos options, both backends, calibrated clips); the "
+            "integer network runs with forward hooks; every integer layer is compared with (a) its "
+            "documented integer formula recomputed in float64 from its stored integers, (b) its "
+            "fake-quantized counterpart fed the integer image of the same input (within one level + "
+            "the bound implied by its own scale/shift), (c) declared ranges of weights, activations, "
+            "scale, shift and scaled bias, (d) a near-optimal shift; the final layer against the "
+            "real-valued logits.",
+            "MAUPITI: Linear last layer, square kernels; no residual adds / dilated depthwise "
+            "(no integer counterpart); clips >= 0.3 (away from the 1e-3 stabiliser); ONNX export is "
+            "not exercised (package missing in this sandbox).",
+            "DESIGN.md 4/C14"),
 }
 
-NOT_YET = "check not built yet in this session; planned with property-based testing per DESIGN.md section 4"
+NOT_YET = "check not built yet"
 
 
 def build():
